@@ -109,15 +109,15 @@ func randomOp(g *val.Gen, p []RStep, m protoreflect.Message) ROp {
 		msgVal := fd.MapValue().Message() != nil
 		choices := []string{"MLen", "MHas", "MGet", "MClear", "MRange", "MIsValid", "MNewValue", "Has", "Get", "Clear", "Mutable", "Getter"}
 		if msgVal {
-			choices = append(choices, "MMutable", "MMutable", "MSetNew", "MRetained", "ViewClear", "SetInvalid")
+			choices = append(choices, "MMutable", "MMutable", "MSetNew", "MRetained", "ViewClear", "SetInvalid", "MSetFill")
 		} else {
-			choices = append(choices, "MSet", "MSet", "MSet", "MRetained", "ViewClear", "SetInvalid")
+			choices = append(choices, "MSet", "MSet", "MSet", "MRetained", "ViewClear", "SetInvalid", "MSetFill")
 		}
 		op.Op = choices[g.R.Intn(len(choices))]
-		if op.Op == "MSet" || (op.Op == "MRetained" && !msgVal) {
+		if op.Op == "MSet" || ((op.Op == "MRetained" || op.Op == "MSetFill") && !msgVal) {
 			op.X = scalar(fd.MapValue())
 		}
-		if op.Op == "MRetained" || op.Op == "ViewClear" || op.Op == "SetInvalid" {
+		if op.Op == "MRetained" || op.Op == "ViewClear" || op.Op == "SetInvalid" || op.Op == "MSetFill" {
 			op.Via = "mutable"
 		}
 		if op.Op == "MClear" && op.Via == "get" {
